@@ -51,7 +51,17 @@ def main(argv):
     ctx = Ctx(prop, tier, seed)
     try:
         lean_phase(ctx, mod.PROP_MODULES, mod.BRIDGE_MODULES)
-        mod.run(ctx)
+        try:
+            mod.run(ctx)
+        except (InfraError, OSError, MemoryError, KeyboardInterrupt, ImportError):
+            raise
+        except Exception:
+            # the correspondence itself could not be carried out on this tree (it runs to the end on the unchanged tree): typically the implementation handed
+            # back something of an unexpected shape or type. That is a correspondence that no longer checks -- reported as such, with the traceback as the replay;
+            # violations with a failing input that were found before the crash are reported as usual
+            tb = traceback.format_exc()
+            ctx.violation("correspondence-could-not-be-carried-out", dict(traceback=tb[-3000:], note="harness/%s.py raised while executing or judging the implementation; "
+                          "on the unchanged tree it runs to the end" % prop.lower()), found_input=False, seam="harness")
         # the translated kernels this property's bridges are about: run the original Python statements and the generated Lean
         # definitions on the same inputs (validation of the translator, harness/pyvalidate.py)
         groups = [m.split(".Bridge.Py")[1] for m in mod.BRIDGE_MODULES if ".Bridge.Py" in m]
